@@ -318,7 +318,11 @@ impl Property for C15 {
                     s
                 }
             };
-            let (sa, sb) = (ident(&base), ident(&variant));
+            let (sa, mut sb) = (ident(&base), ident(&variant));
+            // a variant that happens to equal another label name of the descriptor would make it invalid
+            if a.consts.iter().any(|c| c.0 == sb) || a.vars.iter().any(|v| *v == sb) {
+                sb = sa.clone();
+            }
             match src.below(5) {
                 1 if !a.consts.is_empty() => {
                     a.consts[0].1 = sa;
